@@ -3,10 +3,11 @@
    the raw ranges of nodes, the locations of parse errors and every location of every diagnostic lie
    inside the (normalised) text, have line/column equal to those of their raw offsets, and are either one
    token of the lexer output (covering exactly its spelling) or the hull of the tokens of one statement.
-   Statements only; proofs in Proofs/LocProofs.v.  The token-level facts are Props/C09.v. *)
+   Statements only; proofs in Proofs/LocProofs.v (tightness of instruction statements: LocTightProofs.v).
+   The token-level facts are Props/C09.v. *)
 From RV.Model Require Import Base I32 Imm Lexer Isa Parser Reader Cfg Lints.
 From RV.Spec Require Import PosSpec LineSpec ParamSpec IncludeSpec LocSpec.
-From RV.Proofs Require Import LocProofs.
+From RV.Proofs Require Import LocProofs LocTightProofs.
 Open Scope N_scope.
 
 (* ---- the notions of Props/C09.v (same bodies) --------------------------------------------- *)
@@ -99,6 +100,41 @@ Qed.
 Check C09loc_node_range : C09loc_node_range_statement.
 Print Assumptions C09loc_node_range.
 
+(* ---- (2b) instruction nodes: mnemonic through last operand -------------------------------- *)
+(* An INSTRUCTION statement consumes nothing but its mnemonic and its operand tokens - no newline, no
+   comment ([operand_tok], Spec/LocSpec.v) - so the raw range of an instruction node (every node but
+   labels, directives and the entries: [is_instruction_node]) runs exactly from the mnemonic through the
+   last operand.  [segs_tight items body] is [segs items body] with this for every instruction statement;
+   spelled out: the statement of an instruction node [n] is a segment [tf :: u'] of the lexer output,
+   [tf] is the token of the node's instruction field ([mnemonic_tok]), all of tf :: u' are operand
+   tokens, the node's range is the hull of tf and the last of them, and the tokens it carries are among
+   them.  (Since the jalr fix: a bare `jalr rs` used to consume the token after rs - the newline, or a
+   trailing comment, which then was part of the node's range.)  Data directives are excluded because
+   they legitimately consume newlines (`.word 1` <newline> `2`: the example below). *)
+Definition C09loc_node_range_tight_statement : Prop :=
+  forall chk path text nodes errs items, one_file chk path text nodes errs items ->
+    exists body, nodes = entry_node 0 :: body /\ segs_tight items body /\
+      forall n, In n body -> is_instruction_node n = true ->
+        exists pre tf u' post,
+          items = pre ++ map LTok (tf :: u') ++ post /\ mnemonic_tok n = Some tf /\
+          Forall operand_tok (tf :: u') /\ node_raw n = hull tf (last u' tf) /\
+          Forall (fun t => In t (tf :: u')) (node_tokens n).
+Theorem C09loc_node_range_tight : C09loc_node_range_tight_statement.
+Proof.
+  intros chk path text nodes errs items [[rs Hp] Hl].
+  exact (node_range_tight chk path text nodes errs rs items Hp Hl).
+Qed.
+Check C09loc_node_range_tight : C09loc_node_range_tight_statement.
+Print Assumptions C09loc_node_range_tight.
+
+(* [segs_tight] refines [segs] *)
+Definition C09loc_segs_tight_segs_statement : Prop :=
+  forall items body, segs_tight items body -> segs items body.
+Theorem C09loc_segs_tight_segs : C09loc_segs_tight_segs_statement.
+Proof. exact segs_tight_segs. Qed.
+Check C09loc_segs_tight_segs : C09loc_segs_tight_segs_statement.
+Print Assumptions C09loc_segs_tight_segs.
+
 (* ---- (3) parse error locations ------------------------------------------------------------ *)
 (* The location of every parse error is the range of an item of the lexer output, in file 0: the
    offending token (for an include failure, the path token), or the item the lexer itself rejected (an
@@ -157,40 +193,53 @@ Print Assumptions C09loc_diagnostics.
 (* ---- non-vacuity --------------------------------------------------------------------------- *)
 Fixpoint unlines (l : list str) : str := match l with [] => [] | x :: l' => x ++ [c_nl] ++ unlines l' end.
 (* a label, a pseudo-instruction with a synthesised operand (li), an expansion (lw t1, val), a parse error
-   (missing parenthesis), a lexer error (unclosed string), unreachable code, a data list over two lines *)
+   (missing parenthesis), a lexer error (unclosed string), unreachable code, two instructions followed by a
+   comment (a load without base register and a bare `jalr rs`: both look at the token after their last
+   operand), a data list over two lines *)
 Definition ex_text : str := unlines
   [ «"main:"»; «"    li t0, 5"»; «"    lw t1, val"»; «"    addi t0, zero, 7"»; «"    sw t0, 0(sp"»;
-    «"    .ascii ""abc"»; «"    li a7, 10"»; «"    ecall"»; «"    addi t1, t1, 1"»; «".data"»; «"val: .word 1"»; «"   2"» ].
+    «"    .ascii ""abc"»; «"    li a7, 10"»; «"    ecall"»; «"    addi t1, t1, 1"»;
+    «"    lw a0, 4 # c"»; «"    jalr t0 # comment"»; «".data"»; «"val: .word 1"»; «"   2"» ].
 Definition ex_path : str := «"a.s"».
 
 Definition range_eqb (a b : range) : bool :=
   (N.eqb (raw (rstart a)) (raw (rstart b)) && N.eqb (raw (rend a)) (raw (rend b)))%bool.
 
-(* the hypotheses are satisfiable: the parse succeeds with 12 nodes and 2 errors, the analysis yields
-   diagnostics; the two nodes of `lw t1, val` share their range; the `.word` node spans two lines; there
-   are diagnostics located at a single item and diagnostics located at the hull of a statement *)
+(* the hypotheses are satisfiable: the parse succeeds with 14 nodes and 2 errors, the analysis yields
+   diagnostics; the two nodes of `lw t1, val` share their range; the `.word` node spans two lines; the
+   ranges of `lw a0, 4 # c` and `jalr t0 # comment` end with their last operand (`4`, `t0`), not with the
+   comment; there are diagnostics located at a single item and diagnostics located at the hull of a
+   statement *)
 Example C09loc_example :
   match parse_from_file false [(ex_path, inl ex_text)] ex_path false,
         lex_all false (Some 0) (normalize_text ex_text) with
   | Ok (nodes, errs, _), Ok items =>
       one_file false ex_path ex_text nodes errs items /\
-      length nodes = 12%nat /\ length errs = 2%nat /\ length items = 43%nat /\
+      length nodes = 14%nat /\ length errs = 2%nat /\ length items = 52%nat /\
       (match nth_error nodes 3, nth_error nodes 4 with
        | Some a, Some b => expansion_pair a b /\ node_raw a = node_raw b
        | _, _ => False end) /\
-      (match nth_error nodes 11 with
-       | Some n => line (rstart (rrange (node_raw n))) = 10 /\ line (rend (rrange (node_raw n))) = 11
+      (match nth_error nodes 13 with
+       | Some n => is_instruction_node n = false /\
+                   line (rstart (rrange (node_raw n))) = 12 /\ line (rend (rrange (node_raw n))) = 13
        | None => False end) /\
+      (match nth_error nodes 9, nth_error nodes 10 with
+       | Some (PLoad _ _ _ imm ra as a), Some (PJumpLinkR _ _ rs1 _ rb as b) =>
+           slice (normalize_text ex_text) (raw_start a) (raw_end a) = «"lw a0, 4"» /\
+           rend (rrange ra) = rend (trange (wt imm)) /\ tt (wt imm) = TSymbol «"4"» /\
+           slice (normalize_text ex_text) (raw_start b) (raw_end b) = «"jalr t0"» /\
+           rend (rrange rb) = rend (trange (wt rs1)) /\ tt (wt rs1) = TSymbol «"t0"»
+       | _, _ => False end) /\
       match run_items [] nodes errs with
       | Ok ds =>
           map (fun d => match dk d with DLint c => Some c | _ => None end) ds =
             [None; None; Some LDeadAssignment; Some LDeadAssignment; Some LDeadAssignment; Some LDeadAssignment;
-             Some LUnreachableCode; Some LUnknownStack] /\
-          (* the last two diagnostics are located at the hull of a statement, the others at single items *)
+             Some LDeadAssignment; Some LUnreachableCode; Some LUnreachableCode; Some LUnknownStack] /\
+          (* the last three diagnostics are located at the hull of a statement, the others at single items *)
           map (fun d => map (fun l => existsb (fun n => range_eqb (lrange l) (rrange (node_raw n))) nodes) (dlocs d)) ds =
-            [[false]; [false]; [false]; [false]; [false]; [false]; [true]; [true]] /\
+            [[false]; [false]; [false]; [false]; [false]; [false]; [false]; [true]; [true]; [true]] /\
           map (fun d => map (fun l => existsb (fun it => range_eqb (lrange l) (item_range it)) items) (dlocs d)) ds =
-            [[true]; [true]; [true]; [true]; [true]; [true]; [false]; [false]]
+            [[true]; [true]; [true]; [true]; [true]; [true]; [true]; [false]; [false]; [false]]
       | _ => False
       end
   | _, _ => False
@@ -199,7 +248,7 @@ Proof.
   vm_compute. split; [split; [eexists; reflexivity|reflexivity]|]. repeat split; reflexivity.
 Qed.
 
-(* the theorems applied to the example: every location of its eight diagnostics is exact *)
+(* the theorems applied to the example: every location of its ten diagnostics is exact *)
 Example C09loc_example_applied :
   forall nodes errs rs items ds,
     parse_from_file false [(ex_path, inl ex_text)] ex_path false = Ok (nodes, errs, rs) ->
